@@ -341,6 +341,7 @@ type storageGen struct {
 	ips       []string
 	blocks    int
 	lastBuy   *sttypes.MsgBuyStorage
+	signSoon  int // forms profile: the next few operations are signatures on open forms (after the quorum parameters moved)
 	lastPost  *sttypes.MsgPostFile // the last pay-once posting and the height it was sent at
 	lastPostH int64
 	burst     int // how many more equal purchases follow at once (three and more deposits into one gauge id)
@@ -397,6 +398,10 @@ func (g *storageGen) next() (sdk.Msg, map[string]interface{}, func(pre, post stS
 	}
 	if g.burst > 0 && g.lastBuy != nil {
 		k = 0 // the buy branch, repeating the last purchase
+	}
+	if g.signSoon > 0 {
+		g.signSoon--
+		k = m.buy + m.post + m.del + m.proof + m.prov + m.forms // the signature branch
 	}
 	params := c.A.StorageKeeper.GetParams(c.Ctx())
 	files := g.allFiles()
@@ -687,6 +692,27 @@ func (g *storageGen) next() (sdk.Msg, map[string]interface{}, func(pre, post stS
 			}
 		}
 		isReport := r.Intn(2) == 0
+		if m.name == "forms" && r.Intn(6) > 0 {
+			// state-directed: a listed prover that is a registered provider (a form can only be opened about one)
+			type cand struct {
+				f sttypes.UnifiedFile
+				p string
+			}
+			var cands []cand
+			for _, f := range files {
+				for _, pk := range f.Proofs {
+					pr := strings.Split(pk, "/")[0]
+					if _, found := c.A.StorageKeeper.GetProviders(c.Ctx(), pr); found {
+						cands = append(cands, cand{f, pr})
+					}
+				}
+			}
+			if len(cands) > 0 {
+				cd := cands[r.Intn(len(cands))]
+				merkle, owner, start = cd.f.Merkle, cd.f.Owner, cd.f.Start
+				prover, creator = cd.p, cd.p
+			}
+		}
 		subject := creator
 		if isReport {
 			subject = prover
@@ -944,14 +970,20 @@ func runStorage(profile string, seed int64, histories, steps int, out *Emitter) 
 				}
 				continue
 			}
-			if r.Intn(map[bool]int{true: 9, false: 45}[profile == "collateral"]) == 0 {
+			govEvery := 45
+			if profile == "collateral" {
+				govEvery = 9
+			} else if profile == "forms" {
+				govEvery = 14 // forms are short-lived: the quorum parameters must move while some are open
+			}
+			if r.Intn(govEvery) == 0 {
 				// a governance parameter change between two messages (the params subspace is written
 				// the way a passed param-change proposal writes it: SetParamSet with the validators)
 				pre, _ := c.storageAbs(g.users)
 				np := c.A.StorageKeeper.GetParams(c.Ctx())
 				nCases := 4
 				if mix.forms+mix.sign > 0 {
-					nCases = 7
+					nCases = 9
 				}
 				gcase := r.Intn(nCases)
 				if g.qr.Intn(5) == 0 {
@@ -968,10 +1000,36 @@ func runStorage(profile string, seed int64, histories, steps int, out *Emitter) 
 					if r.Intn(2) == 0 && np.AttestMinToPass > 0 {
 						np.AttestMinToPass--
 					}
-				case 6:
-					np.AttestFormSize = []int64{1, 2, 3, 4}[r.Intn(4)]
+					if profile == "forms" {
+						g.signSoon = 1 + r.Intn(3)
+					}
+				case 6, 8: // the form size moves while forms of the old size are open
+					np.AttestFormSize = []int64{1, 2, 2, 3, 3, 4}[r.Intn(6)]
 					if np.AttestMinToPass > np.AttestFormSize {
 						np.AttestMinToPass = np.AttestFormSize
+					}
+					if profile == "forms" {
+						// forms opened under the old size are still collecting signatures: the size grows past
+						// the largest open form while the minimum stays at two or more, and signatures follow
+						open_ := 0
+						for _, f := range c.A.StorageKeeper.GetAllReport(c.Ctx()) {
+							if len(f.Attestations) > open_ {
+								open_ = len(f.Attestations)
+							}
+						}
+						for _, f := range c.A.StorageKeeper.GetAllAttestation(c.Ctx()) {
+							if len(f.Attestations) > open_ {
+								open_ = len(f.Attestations)
+							}
+						}
+						if open_ > 0 && r.Intn(2) == 0 {
+							np.AttestFormSize = int64(open_ + 1 + r.Intn(2))
+							np.AttestMinToPass = int64(2 + r.Intn(open_))
+							if np.AttestMinToPass > np.AttestFormSize {
+								np.AttestMinToPass = np.AttestFormSize
+							}
+						}
+						g.signSoon = 2 + r.Intn(3)
 					}
 				case 0, 1:
 					np.CollateralPrice = []int64{0, 1, 2, 3, 1000, 5000, 10_000_000_000, np.CollateralPrice * 2, np.CollateralPrice / 2}[r.Intn(9)]
